@@ -15,7 +15,7 @@ TRANSLATOR_UNITS = []
 SHARD = 120
 RULE = ("seeded random DSL programs: nesting depth<=3 of If/Elif/Else (multi-bit and signed conditions), Switch/Case (ints incl. "
         "negative and unrepresentable, multiple patterns, '-' strings with whitespace, empty Case, Default in the middle), "
-        "assignments to nested linear targets (Slice/Part/Cat/array/u/s) in comb and one sync domain (reset, reset-less signals), "
+        "FSM with 1-4 states (init=, ongoing() before definition, m.next under conditions, encoding by first reference), assignments to nested linear targets (Slice/Part/Cat/array/u/s) in comb and one sync domain (reset, reset-less signals), "
         "mixed-domain bodies; 12-24 events (input changes, clock ticks, reset toggles); all signals read after every event; plus "
         "an exhaustive family: all 2-assignment programs over two 2-bit signals under one 1-bit condition x all inputs. "
         "non-trivial = accepted program whose observed trace is not constant; distinct by case hash")
@@ -131,6 +131,60 @@ class PGen:
     def cond(self):
         return self.rexpr(self.inputs + self.syncs or [0], depth=1)
 
+    def add_fsm(self):
+        """one FSM in the sync domain: state register and ongoing() signals become extra signals after rst"""
+        r = self.rng
+        n = r.randrange(1, 5)
+        names = [f"S{k}" for k in range(n)]
+        order = names[:]
+        r.shuffle(order)
+        pre = [x for x in names if r.random() < 0.3]
+        r.shuffle(pre)
+        init = r.choice(names) if r.random() < 0.4 else None
+        self.fsm_names = names
+        states = []
+        for nm in order:
+            body = self.stmts(2, n=r.randrange(0, 3))
+            # sprinkle m.next assignments, some under conditions
+            for _ in range(r.randrange(0, 3)):
+                tgt = r.choice(names)
+                if r.random() < 0.5:
+                    body.append(["next", tgt])
+                else:
+                    body.append(["if", [[self.cond(), [["next", tgt]]]], False, []])
+            r.shuffle(body)
+            states.append([nm, body])
+        # encoding: order of first reference (ongoing() calls before the states, then State / m.next in program order)
+        enc = {}
+        for nm in pre:
+            enc.setdefault(nm, len(enc))
+
+        def walk(stmts):
+            for st in stmts:
+                if st[0] == "next":
+                    enc.setdefault(st[1], len(enc))
+                elif st[0] == "if":
+                    for _, b in st[1]:
+                        walk(b)
+                    walk(st[3])
+                elif st[0] == "switch":
+                    for _, b in st[2]:
+                        walk(b)
+        for nm, body in states:
+            enc.setdefault(nm, len(enc))
+            walk(body)
+        # every referenced state must be defined: all names are defined here
+        ne = len(enc)
+        w = 1 if ne <= 1 else (ne - 1).bit_length()
+        first = states[0][0]
+        st_idx = len(self.shapes)
+        self.shapes.append([w, False]); self.inits.append(enc[init if init is not None else first]); self.rl.append(False)
+        og = {}
+        for nm in order:
+            og[nm] = len(self.shapes)
+            self.shapes.append([1, False]); self.inits.append(0); self.rl.append(False)
+        return ["fsm", {"init": init, "pre": pre, "states": states, "enc": enc, "w": w, "st": st_idx, "og": og}]
+
     def stmts(self, d, n=None):
         r = self.rng
         out = []
@@ -171,18 +225,33 @@ class PGen:
         return out
 
 
-def project(stmts, dom, shapes):
-    """the per-domain program the model sees; patterns normalised"""
+def project(stmts, dom, shapes, fsm=None):
+    """the per-domain program the model sees; patterns normalised; FSMs become a Switch on the state register,
+    m.next an assignment of the encoding (in the FSM's domain: sync), ongoing() signals top-level comb compares"""
     out = []
     for s in stmts:
+        if s[0] == "fsm":
+            f = s[1]
+            cases = [[[G._binpat(f["w"], f["enc"][nm])], project(body, dom, shapes, f)] for nm, body in f["states"]]
+            out.append(["switch", ["s", f["st"]], cases])
+            if dom == "comb":
+                for nm, k in f["enc"].items():
+                    out.append(["as", ["s", f["og"][nm]], ["o2", "==", ["s", f["st"]],
+                                                           ["c", k, max(1, k.bit_length()), False]]])
+            continue
+        if s[0] == "next":
+            if dom == "sync":
+                k = fsm["enc"][s[1]]
+                out.append(["as", ["s", fsm["st"]], ["c", k, max(1, k.bit_length()), False]])
+            continue
         if s[0] == "as":
             if s[1] == dom:
                 out.append(["as", s[2], s[3]])
         elif s[0] == "if":
-            out.append(["if", [[c, project(b, dom, shapes)] for c, b in s[1]], s[2], project(s[3], dom, shapes)])
+            out.append(["if", [[c, project(b, dom, shapes, fsm)] for c, b in s[1]], s[2], project(s[3], dom, shapes, fsm)])
         elif s[0] == "switch":
             w, sg = G.pyshape(s[1], shapes)
-            out.append(["switch", s[1], [[None if p is None else norm_patterns(p, w, sg), project(b, dom, shapes)]
+            out.append(["switch", s[1], [[None if p is None else norm_patterns(p, w, sg), project(b, dom, shapes, fsm)]
                                          for p, b in s[2]]])
     return out
 
@@ -233,13 +302,16 @@ def gen_cases(tier, seed):
         if not pg.combs and not pg.syncs:
             continue
         prog = pg.stmts(rng.randrange(1, 4), n=rng.randrange(1, 5))
+        has_fsm = bool(pg.syncs) and rng.random() < 0.4
+        if has_fsm:
+            prog.insert(rng.randrange(0, len(prog) + 1), pg.add_fsm())
         evs = gen_events(rng, pg, rng.randrange(12, 25))
         base = {"shapes": pg.shapes, "inits": pg.inits, "rl": pg.rl, "prog": prog, "evs": evs,
                 "nsig": len(pg.shapes), "rst": pg.rst, "has_sync": bool(pg.syncs)}
-        cases.append(dict(base, k="dsl", shape="rnd"))
-        if i % 3 == 0:
+        cases.append(dict(base, k="dsl", shape="fsm" if has_fsm else "rnd"))
+        if i % 3 == 0 and not has_fsm:
             cases.append(dict(base, k="stmts", shape="rnd"))
-        if pg.combs and i % 2 == 0:
+        if pg.combs and i % 2 == 0 and not has_fsm:
             cases.append(dict(base, k="combspec", shape="rnd", driven=pg.combs,
                               evs=[e for e in evs if e[0] == "set" and e[1] != pg.rst]))
     # exhaustive small family: two assignments to two 2-bit comb signals under one 1-bit condition
@@ -287,15 +359,30 @@ def build_module(c):
     from amaranth.hdl import Signal, Shape, Module, ClockDomain
     shapes = c["shapes"]
     sigs = [Signal(Shape(w, bool(s)), name=f"x{k}", init=c["inits"][k], reset_less=bool(c["rl"][k]))
-            for k, (w, s) in enumerate(shapes[:-1])]
+            for k, (w, s) in enumerate(shapes[:c["rst"]])]
     m = Module()
     cd = ClockDomain("sync")
     m.domains.sync = cd
-    sigs.append(cd.rst)
+    nbase = c["rst"]
+    sigs = sigs[:nbase] + [cd.rst] + [None] * (len(shapes) - nbase - 1)
 
     def emit(stmts):
         for s in stmts:
-            if s[0] == "as":
+            if s[0] == "fsm":
+                f = s[1]
+                kw = {} if f["init"] is None else {"init": f["init"]}
+                with m.FSM(domain="sync", **kw) as fsm:
+                    for nm in f["pre"]:
+                        fsm.ongoing(nm)
+                    for nm, body in f["states"]:
+                        with m.State(nm):
+                            emit(body)
+                sigs[f["st"]] = fsm.state
+                for nm, k in f["og"].items():
+                    sigs[k] = fsm.ongoing(nm)
+            elif s[0] == "next":
+                m.next = s[1]
+            elif s[0] == "as":
                 m.d[s[1]] += G.build(s[2], sigs).eq(G.build(s[3], sigs))
             elif s[0] == "if":
                 for k, (cnd, body) in enumerate(s[1]):
